@@ -11,7 +11,8 @@ RULE = ("accepted vectors x {sort} x {minimal}: version / vectorString / score /
         "against the input, scores(), severities() and the frozen metric-name table; sort=True = same items in "
         "ascending key order; minimal=True = full output minus whole temporal/environmental groups, never a base "
         "field, never a group with a defined metric; JSON also compared model-vs-code; distinct = distinct "
-        "(version, vector, options); includes vectors whose temporal/environmental score is 0.0")
+        "(version, vector, options); includes vectors whose temporal/environmental score is 0.0"
+        " + special families (every metric spelled out, rating-boundary ties); the document's rating is the official rating of the document's score")
 ASSUMPTIONS = ["metric-name table: tools/names.json (frozen)"]
 NAMES = json.load(open(os.path.join(core.VERIF, "tools", "names.json")))
 
@@ -165,7 +166,7 @@ def replay(data):
     r = data["replay"]
     o, e = obs.construct(r["ver"], r["s"], warm=True)
     if o is None:
-        return False, "rejected %s" % e
+        return obs.rejected_verdict(r["ver"], r["s"], e)
 
     class C:
         v = []
